@@ -150,3 +150,52 @@ def exportOp (j : Json) : Json :=
                   ("back", Json.arr (ls.map (fun r => match r.bind pqRead with | some g => gateToJson g | none => Json.null)).toArray)]
 
 end Tangelo.Driver
+
+namespace Tangelo.Driver
+open Tangelo.Codec Tangelo.Hist Lean
+
+def histOfJson? (j : Json) : Option Hist := match j with
+  | .arr a => a.toList.mapM (fun (e : Json) => match e with
+      | .arr #[.str k, v] => (ratOfJson? v).map (fun r => (bitsOfStr k, r))
+      | _ => none)
+  | _ => none
+
+def histToJson (h : Hist) : Json := Json.arr (h.map (fun (k, v) => Json.arr #[bitsJ k, ratToJson v])).toArray
+
+/-- {"op":"hist","h":[["010","3"],..],"steps":[{"k":"remove","idx":[..]}|{"k":"post","exp":[[q,b],..]}|{"k":"reverse"}|{"k":"agg","other":[..]}],
+     "mask":[..]} → histogram, total and signed sum after every step -/
+def histOp (j : Json) : Json :=
+  match histOfJson? (j.getObjValD "h") with
+  | none => jErr "hist: bad histogram"
+  | some h0 =>
+    let steps := match j.getObjValD "steps" with | .arr a => a.toList | _ => []
+    let out := steps.foldl (fun (acc : Hist × List Json) (st : Json) =>
+      let h := acc.1
+      let h' : Hist := match getStr st "k" with
+        | "remove" => removeIdx ((getNatList? (st.getObjValD "idx")).getD []) h
+        | "reverse" => reverseKeys h
+        | "post" =>
+          let exp := match st.getObjValD "exp" with
+            | .arr a => a.toList.filterMap (fun (e : Json) => match e with
+                | .arr #[q, .str b] => (getNat? q).map (fun n => (n, b == "1"))
+                | _ => none)
+            | _ => []
+          postSelect exp h
+        | "agg" => aggregate [h, (histOfJson? (st.getObjValD "other")).getD []]
+        | _ => h
+      (h', acc.2 ++ [Json.mkObj [("h", histToJson h'), ("total", ratToJson (total h'))]])) (h0, [])
+    Json.mkObj [("steps", Json.arr out.2.toArray)]
+
+def groupsOfJson? (j : Json) : Option (List (Key × List (Key × Cyc))) := match j with
+  | .arr a => a.toList.mapM (fun (g : Json) => match g with
+      | .arr #[b, ts] => do let b' ← keyOfJson? b; let ts' ← symTermsOfJson? ts; pure (b', ts')
+      | _ => none)
+  | _ => none
+
+/-- {"op":"grouping","terms":[[key,cyc]..],"groups":[[basisKey,[[key,cyc]..]]..]} -/
+def groupingOp (j : Json) : Json :=
+  match symTermsOfJson? (j.getObjValD "terms"), groupsOfJson? (j.getObjValD "groups") with
+  | some op, some gs => Json.mkObj [("ok", Json.bool (checkGrouping op gs))]
+  | _, _ => jErr "grouping: bad arguments"
+
+end Tangelo.Driver
